@@ -46,6 +46,7 @@ const (
 	ReqSscan
 	ReqSdiff
 	ReqSinter
+	ReqSunion
 	ReqScard
 	ReqSismember
 	ReqSmembers
@@ -85,7 +86,6 @@ const (
 	ReqSetex
 	ReqSetnx
 	ReqSetrange
-	ReqSunion
 	ReqHdel /* redis requests - hashes */
 	ReqHincrby
 	ReqHincrbyfloat
